@@ -14,8 +14,8 @@
 
 using namespace Vector::BLF;
 
-struct MCfg { bool writing; uint32_t C; long S; bool shipped; long B; uint32_t Q; int level; int stall_every; bool damaged; bool aligned;
-    std::string str() const { std::ostringstream s; s << (writing ? "write" : "read") << " C=" << C << " S=" << S << " B=" << (shipped ? 0x20000 : B) << " Q=" << (shipped ? 10 : Q) << " level=" << level << " stall_every=" << stall_every << (damaged ? " damaged-record" : "") << (aligned ? " boundary-aligned-bursts" : ""); return s.str(); } };
+struct MCfg { bool writing; uint32_t C; long S; bool shipped; long B; uint32_t Q; int level; int stall_every; bool damaged; bool aligned; bool padcut = false;
+    std::string str() const { std::ostringstream s; s << (writing ? "write" : "read") << " C=" << C << " S=" << S << " B=" << (shipped ? 0x20000 : B) << " Q=" << (shipped ? 10 : Q) << " level=" << level << " stall_every=" << stall_every << (damaged ? " damaged-record" : "") << (aligned ? " boundary-aligned-bursts" : "") << (padcut ? " containers-end-in-padding" : ""); return s.str(); } };
 
 static MCfg make_cfg(uint64_t seed, long ci) {
     Rng r(Rng::mix(seed ^ 0xC12, (uint64_t)ci));
@@ -31,6 +31,10 @@ static MCfg make_cfg(uint64_t seed, long ci) {
     // 8 objects fill one container and the application (not a worker) is the starved thread
     c.aligned = c.writing && (ci % 8) >= 4;
     if (c.aligned) c.S = (long)c.C / 8 - 48;
+    // read side: every container ends inside (or right behind) the alignment padding of an object, so the reader leaves each
+    // container by skipping, not by reading
+    c.padcut = !c.writing && !c.damaged && (ci % 16) < 8;
+    if (c.padcut) c.S += (2 - (c.S + 48) % 4 + 4) % 4;      // objectSize % 4 == 2: two padding bytes after every object
     return c;
 }
 
@@ -43,7 +47,18 @@ static Meas run_one(const MCfg & c, int N, const std::string & path, uint64_t ss
         twin::Bytes stream; for (long i = 0; i < nobj; i++) {
             if (c.damaged && i == nobj / 4) { twin::Bytes bad = twin::unknown_object(1, 8); stream.insert(stream.end(), bad.begin(), bad.end()); }   // objectSize below the header size: the decoder gives up here
             twin::Bytes o = twin::app_text(1000 + (uint32_t)i, (size_t)c.S); stream.insert(stream.end(), o.begin(), o.end()); }
-        twin::save(path, twin::wrap(stream, c.C, c.level));
+        if (!c.padcut) twin::save(path, twin::wrap(stream, c.C, c.level));
+        else {
+            twin::Bytes out = twin::file_header(); size_t P = (size_t)S + 2, start = 0; long j = 0;
+            while (start < stream.size()) {
+                size_t k = (start + c.C) / P; if (k * P <= start) k = start / P + 1;          // last object that ends within about C bytes
+                size_t cut = k * P - (j % 2 ? 0 : 1);                                         // one padding byte before / exactly at the padded end
+                if (cut > stream.size() || k * P >= stream.size()) cut = stream.size();
+                twin::Bytes cc = twin::container(stream.data() + start, cut - start, c.level); out.insert(out.end(), cc.begin(), cc.end());
+                start = cut; j++;
+            }
+            twin::save(path, out);
+        }
     }
     size_t base = alloc_live();
     alloc_reset_peak();
